@@ -198,6 +198,26 @@ theorem parsed_lines_fit (w : Bytes) (hw : w.length ≤ MAX_BUFFER_CAPACITY) :
   simp only [List.length_append] at h2
   omega
 
+/-- non-vacuity of the hypotheses of `long_line_dropped` / `stream_eq_specM` at the real limit: a
+    MODULE line, then a line of `MAX_BUFFER_CAPACITY` bytes, then a short unterminated rest -/
+example : Mixed (MAX_BUFFER_CAPACITY / 2) MAX_BUFFER_CAPACITY
+    ([kw "MODULE a b c d\n"].flatten ++ ((List.replicate MAX_BUFFER_CAPACITY 120 ++ [Stream.NL]) ++ kw "FILE 1")) := by
+  have hnl : Stream.NL ∉ List.replicate MAX_BUFFER_CAPACITY (120 : UInt8) := by
+    intro h; have := List.eq_of_mem_replicate h; revert this; decide
+  have h1 : ∀ l ∈ [kw "MODULE a b c d\n"], IsLine l := by
+    intro l hl; simp only [List.mem_singleton] at hl; rw [hl]; exact ⟨kw "MODULE a b c d", by decide, by decide⟩
+  have h2 : ∀ l ∈ [List.replicate MAX_BUFFER_CAPACITY (120 : UInt8) ++ [Stream.NL]], IsLine l := by
+    intro l hl; simp only [List.mem_singleton] at hl; rw [hl]; exact ⟨_, hnl, rfl⟩
+  have e : (List.replicate MAX_BUFFER_CAPACITY (120 : UInt8) ++ [Stream.NL]) ++ kw "FILE 1" =
+      [List.replicate MAX_BUFFER_CAPACITY (120 : UInt8) ++ [Stream.NL]].flatten ++ kw "FILE 1" := by simp
+  unfold Mixed
+  rw [linesOf_append_lines _ h1, e, linesOf_append_lines _ h2, linesOf_noNL (kw "FILE 1") (by decide)]
+  refine ⟨fun l hl => ?_, Or.inl (by decide)⟩
+  simp only [List.append_nil, List.mem_append, List.mem_singleton] at hl
+  rcases hl with h | h
+  · rw [h]; exact Or.inl (by decide)
+  · rw [h]; exact Or.inr (by simp)
+
 /-- non-vacuity of `Mixed`: a file with a short line, an over-long line and a short unterminated
     rest (checked through the definition's decidable core on a scaled-down limit) -/
 example : Mixed 4 8 (kw "ab\n0123456789\ncd") := by
